@@ -35,7 +35,7 @@ def enc_check(config, codec, hexbm, msg, default_cfg=False):
         want = refcodec.encode(config, codec, hexbm, {k: v for k, v in msg.items()})
     except refcodec.Unrepresentable as ex:
         raise harness.HarnessError(f'generator produced an unrepresentable message: {ex}')
-    kw = dict(encoding=codec, hex_bitmap=hexbm)
+    kw = dict(encoding=codecs_.spell(codec, len(want)), hex_bitmap=hexbm)      # any spelling of the codec name
     if codec == 'latin_1' and len(msg) % 2:
         del kw['encoding']          # the documented default
     if not default_cfg:
@@ -65,7 +65,7 @@ def dec_check(config, codec, hexbm, data, default_cfg=False):
     ref = refcodec.decode(config, codec, hexbm, data, strict=True)
     if not ref.ok:
         raise harness.HarnessError(f'reference decoder rejects reference-encoded bytes: {ref.reason}')
-    kw = dict(encoding=codec, hex_bitmap=hexbm)
+    kw = dict(encoding=codecs_.spell(codec, len(data)), hex_bitmap=hexbm)      # any spelling of the codec name
     if codec == 'latin_1' and len(data) % 2:
         del kw['encoding']          # the documented default
     if not default_cfg:
